@@ -76,6 +76,18 @@ pub trait Table: Send + Sync {
     /// walk the body of `img` by the entries' own length fields; Err = where tiling failed.
     /// Also validates per-entry summarising fields against what the walk finds.
     fn walk(&self, img: &[u8]) -> Result<Vec<Ent>, String>;
+    /// byte offsets whose specification value could not be settled offline (DESIGN.md 9.1): they are *not judged* by the
+    /// image comparisons of C04/C11, so that a maintainer correcting such a constant does not raise a false alarm.
+    /// When the list is non-empty the checksum byte (judged by C01) is left out of those comparisons too.
+    fn unjudged(&self, _ops: &[Op]) -> Vec<usize> {
+        vec![]
+    }
+    /// every per-entry summarising field (element counts, array offsets, string lengths) read from the image by the walker's
+    /// own layout knowledge; C03 compares this list between the emitted image and the reference image of the history, so a
+    /// count that is self-consistent but describes something other than what was added is seen
+    fn summary(&self, _img: &[u8], _ents: &[Ent]) -> Vec<u64> {
+        vec![]
+    }
     /// table-level summarising fields (counts, offsets) against the walk
     fn counts(&self, _img: &[u8], _ents: &[Ent]) -> Result<(), String> {
         Ok(())
@@ -90,6 +102,10 @@ pub trait Table: Send + Sync {
     }
     fn variable_body(&self) -> bool {
         true
+    }
+    /// true when the history contains an entry that is not self-describing by construction (C03 does not judge it)
+    fn unwalkable(&self, _ops: &[Op]) -> bool {
+        false
     }
     /// largest image the table can describe (VIOT: node offsets are 16-bit, the crate refuses to grow past 64 KiB)
     fn max_image(&self) -> Option<usize> {
@@ -136,6 +152,25 @@ pub fn ref_finish(w: &mut W) {
     w.0[9] = 0;
     let s = crate::util::sum8(&w.0);
     w.0[9] = 0u8.wrapping_sub(s);
+}
+
+/// image equality on the judged bytes
+pub fn eq_judged(t: &dyn Table, ops: &[Op], img: &[u8], want: &[u8]) -> bool {
+    if img == want {
+        return true;
+    }
+    let u = t.unjudged(ops);
+    if u.is_empty() || img.len() != want.len() {
+        return false;
+    }
+    let (mut a, mut b) = (img.to_vec(), want.to_vec());
+    for o in u.iter().chain([9usize].iter()) {
+        if *o < a.len() {
+            a[*o] = 0;
+            b[*o] = 0;
+        }
+    }
+    a == b
 }
 
 pub fn all() -> Vec<Box<dyn Table>> {
